@@ -120,6 +120,13 @@ func main() {
 		}
 		progs = append(progs, loaded{p, newModAnalysis(p)})
 	}
+	seenAlias := map[string]bool{}
+	for _, l := range aliasLog {
+		if !seenAlias[l] {
+			seenAlias[l] = true
+			fmt.Println("note: helper " + l + " (resolved by signature and call neighbourhood)")
+		}
+	}
 	loadTime := time.Since(start).Seconds()
 	exit := 0
 	for _, id := range ids {
@@ -195,6 +202,22 @@ func dumpMain(repo, pat string) int {
 	if err != nil {
 		fmt.Println("ERROR", err)
 		return 2
+	}
+	if pat == "@helpers" {
+		// development aid: the unexported helpers of the module with signature and call neighbourhood (frozen in known_helpers.go)
+		tab := helperTable(p)
+		var ks []string
+		for k := range tab {
+			ks = append(ks, k)
+		}
+		sort.Strings(ks)
+		fmt.Println("package main\n\n// frozenHelpers: generated with `ddverif -dump @helpers` from the tree the rules were written against (see alias.go).\nvar frozenHelpers = map[string]helperSig{")
+		for _, k := range ks {
+			h := tab[k]
+			fmt.Printf("\t%q: {sig: %q, callees: %#v, callers: %#v},\n", k, h.sig, h.callees, h.callers)
+		}
+		fmt.Println("}")
+		return 0
 	}
 	if pat == "@exported" {
 		// development aid: the exported functions of the module (frozen in known_api.go)
